@@ -10,6 +10,7 @@ use crate::check::context::function::generic::GenericFunction;
 use crate::check::context::function::python::{INIT, STR};
 use crate::check::context::parent::generic::GenericParent;
 use crate::check::context::{arg, clss};
+use crate::check::ident::LITERAL_NAMES;
 use crate::check::name::string_name::StringName;
 use crate::check::name::{Any, Empty, Name};
 use crate::check::result::{TypeErr, TypeResult};
@@ -108,6 +109,10 @@ impl TryFrom<&AST> for GenericClass {
                 body,
             } => {
                 let name = StringName::try_from(ty)?;
+                if LITERAL_NAMES.contains(&name.name.as_str()) {
+                    let msg = format!("{name} is a literal, it cannot be the name of a class");
+                    return Err(vec![TypeErr::new(ty.pos, &msg)]);
+                }
                 let statements = if let Some(body) = body {
                     match &body.node {
                         Node::Block { statements } => statements.clone(),
